@@ -1,0 +1,5 @@
+//go:build !verif
+
+package protocol
+
+func simCanon(data []byte) []byte { return data }
